@@ -234,7 +234,7 @@ CHECKS = {
         "design_ref": "DESIGN.md §5 C18",
     },
     "C19": {
-        "level": "model_checking", "shards": 6, "deadline_quick": 110, "deadline_thorough": 1800,
+        "level": "model_checking", "shards": 7, "deadline_quick": 110, "deadline_thorough": 1800,
         "engine": "E-WORLD",
         "technique": "explicit-state model checking of the implementation: BFS by replay around one real node (all three routers) with an in-memory EventTracer whose events drive a trace replayer compared with the node at every state",
         "rule": WORLD_RULE,
